@@ -7,6 +7,7 @@
 
 #include <fcppt/loop.hpp>
 #include <fcppt/move_clear.hpp>
+#include <fcppt/move_if.hpp>
 #include <fcppt/move_if_rvalue.hpp>
 #include <fcppt/move_iterator_if_rvalue.hpp>
 #include <fcppt/algorithm/fold.hpp>
@@ -300,6 +301,21 @@ void helpers()
       });
     });
   });
+  // move_if<Cond>(arg): "Moves _arg if Cond is true or Arg is an rvalue" (a const lvalue can only be copied)
+  for (int cond : {0, 1})
+    for_cat([&](auto ca) {
+      constexpr cat CA = decltype(ca)::value;
+      run_case("move_if", std::string("Cond:") + (cond ? "true" : "false") + ", arg:" + cat_name(CA), true, [&](ctx &x) {
+        tracked v(7);
+        bool const moves = CA != cat::clv && (cond != 0 || CA == cat::rv);
+        x.arg("arg", moves ? cat::rv : CA, v);
+        x.arm();
+        tracked r(cond ? tracked(fcppt::move_if<true>(pass<CA>(v))) : tracked(fcppt::move_if<false>(pass<CA>(v))));
+        x.disarm();
+        x.result_is(r, ids_of(v));
+        VRT_CHECK(peek::moved(v) == moves, x.op() + ":arg:moved", "source moved=%d, documented: %d", int(peek::moved(v)), int(moves));
+      });
+    });
   for_cat([&](auto ct) {
     constexpr cat CT = decltype(ct)::value;
     using type_param = std::conditional_t<CT == cat::lv, vec &, std::conditional_t<CT == cat::clv, vec const &, vec>>;
